@@ -192,12 +192,24 @@ public:
       }
       _lastAdvanceTime = now;
 
+      std::vector<TimerEntry*> notDue;
       for (std::size_t t = 0; t < ticksToProcess; ++t)
       {
         auto& level0 = _wheels[0];
         auto& bucket = level0.buckets[level0.currentTick & _tickMask];
-        collectFromBucket(bucket, toFire);
+        collectFromBucket(bucket, now, toFire, notDue);
         level0.currentTick++;
+
+        // Entries found in the bucket more than one tick ahead of their
+        // deadline (delay beyond the wheel span, or scheduled just before a
+        // multi-tick catch-up) go back in with their remaining delay, relative
+        // to the tick that is current now.
+        for (auto* entry : notDue)
+        {
+          insertEntry(entry, std::chrono::duration_cast<std::chrono::milliseconds>(
+            entry->deadline - now));
+        }
+        notDue.clear();
 
         if ((level0.currentTick & _tickMask) == 0)
         {
@@ -508,6 +520,16 @@ private:
       ++level;
     }
 
+    // A delay beyond the span of the top level must not wrap around it: the
+    // entry would land in an arbitrary bucket and fire far too early, or be
+    // re-inserted into the very bucket being cascaded, forever. Park it in the
+    // farthest bucket instead; the deadline check made when that bucket comes
+    // up re-inserts it with the remaining delay.
+    if (ticks >= levelCap)
+    {
+      ticks = levelCap - 1;
+    }
+
     auto& wheel = _wheels[level];
     auto idx = (wheel.currentTick + static_cast<std::size_t>(ticks)) & _tickMask;
 
@@ -533,17 +555,28 @@ private:
   /// skip entries that were placed correctly. Entries whose deadline
   /// is slightly in the future (placed between ticks) still fire —
   /// this matches the tick-granularity contract.
-  void collectFromBucket(Bucket& bucket,
-                         std::vector<std::pair<TimerId, Callback>>& toFire)
+  /// Entries whose deadline is MORE than one tick away do not belong to this
+  /// rotation (delay beyond the wheel span) or were scheduled just before a
+  /// multi-tick catch-up; they are handed back in notDue for re-insertion.
+  void collectFromBucket(Bucket& bucket, TimePoint now,
+                         std::vector<std::pair<TimerId, Callback>>& toFire,
+                         std::vector<TimerEntry*>& notDue)
   {
     auto* entry = bucket.head;
     while (entry)
     {
       auto* next = entry->next;
       bucket.unlink(entry);
-      _entryMap.erase(entry->id);
-      toFire.emplace_back(entry->id, std::move(entry->callback));
-      freeEntry(entry);
+      if (entry->deadline - now > _tickDuration)
+      {
+        notDue.push_back(entry);
+      }
+      else
+      {
+        _entryMap.erase(entry->id);
+        toFire.emplace_back(entry->id, std::move(entry->callback));
+        freeEntry(entry);
+      }
       entry = next;
     }
   }
